@@ -195,6 +195,9 @@ Section Discipline.
 
   Definition table_okb : bool := policy_okb && forallb summary_okb summaries.
 
+  Lemma table_okb_summaries : table_okb = true -> forallb summary_okb summaries = true.
+  Proof. unfold table_okb. intros H. apply andb_true_iff in H. exact (proj2 H). Qed.
+
   (* diagnostics (not used in proofs): every failing (function, what) *)
   Fixpoint diag_items (fn : string) (B : list bentry) (H : list shold) (its : list item) : list (string * string) :=
     match its with
